@@ -217,6 +217,31 @@ func c19Replies(thorough bool, f func(c19Reply)) {
 			f(c19Reply{"type", fmt.Sprintf("type=%d version=3 ext=%s", t, c19ListString(l)), c19Version(byte(t), 3, l)})
 		}
 	}
+	// well-formed packets of every other response kind (what a confused or refusing peer might send instead of
+	// VERSION), with the ids 0 and 3, and every frame shortening of each
+	var others []c19Reply
+	for _, id := range []uint32{0, 3, 1<<32 - 1} {
+		for code := uint32(0); code <= 9; code++ {
+			others = append(others, c19Reply{"other-packet", fmt.Sprintf("STATUS id=%d code=%d", id, code), c19Pkt(sshFxpStatus, id, code, "msg", "en")})
+		}
+		others = append(others,
+			c19Reply{"other-packet", fmt.Sprintf("STATUS id=%d code=0 without message", id), c19Pkt(sshFxpStatus, id, uint32(0))},
+			c19Reply{"other-packet", fmt.Sprintf("HANDLE id=%d", id), c19Pkt(sshFxpHandle, id, "h")},
+			c19Reply{"other-packet", fmt.Sprintf("DATA id=%d", id), c19Pkt(sshFxpData, id, "abc")},
+			c19Reply{"other-packet", fmt.Sprintf("NAME id=%d", id), c19Pkt(sshFxpName, id, uint32(1), "n", "long n", uint32(0))},
+			c19Reply{"other-packet", fmt.Sprintf("ATTRS id=%d", id), c19Pkt(sshFxpAttrs, id, uint32(0))},
+			c19Reply{"other-packet", fmt.Sprintf("EXTENDED_REPLY id=%d", id), c19Pkt(sshFxpExtendedReply, id, "x")},
+			c19Reply{"other-packet", fmt.Sprintf("INIT version=%d (echo)", id), c19Pkt(sshFxpInit, id)})
+	}
+	for _, o := range others {
+		f(o)
+		p := o.bytes
+		for k := 0; k < len(p)-4; k++ {
+			q := append([]byte{}, p[:4+k]...)
+			binary.BigEndian.PutUint32(q, uint32(k))
+			f(c19Reply{"other-packet-cut", fmt.Sprintf("%s, frame shortened to %d of %d bytes", o.desc, k, len(p)-4), q})
+		}
+	}
 	for _, l := range reps {
 		p := c19Version(sshFxpVersion, 3, l)
 		n := uint32(len(p) - 4)
@@ -260,6 +285,11 @@ var c19ProbeNames = []string{"", "a", "fsync@openssh.com", "zz", "A", "fsync@ope
 
 // c19Handshake runs one peer answer and returns a verdict ("" = fine) with a key suffix.
 func c19Handshake(r c19Reply) (key, msg, outcome string) {
+	defer func() {
+		if p := recover(); p != nil {
+			key, msg, outcome = "c19-panic", fmt.Sprintf("NewClientPipe panics (%v) on the peer's answer: %s", p, r.desc), ""
+		}
+	}()
 	want, list, why := c19Ref(r.bytes)
 	base := runtime.NumGoroutine()
 	s2c, c2s := newBPipe(), newBPipe()
@@ -774,7 +804,7 @@ func init() {
 	reg.Prop(&reg.Property{
 		ID:    "C19",
 		Level: "model_checking",
-		Rule: "handshake: every peer answer of an explicit set (versions 0..1000 (thorough: 0..2^20), every one-bit and one-byte variation of 3, 2^31, 2^32-1; all extension lists of 0..3 pairs over 3 names x 2 data values incl. empty and duplicate names; every stream truncation and every frame shortening of a valid VERSION packet; every type byte; length-field mutations) run through NewClientPipe and judged by a reference parser (distinct = each answer); " +
+		Rule: "handshake: every peer answer of an explicit set (versions 0..1000 (thorough: 0..2^20), every one-bit and one-byte variation of 3, 2^31, 2^32-1; all extension lists of 0..3 pairs over 3 names x 2 data values incl. empty and duplicate names; every stream truncation and every frame shortening of a valid VERSION packet; every type byte; well-formed STATUS (every code), HANDLE, DATA, NAME, ATTRS, EXTENDED_REPLY and INIT packets with ids 0, 3 and 2^32-1 and every frame shortening of each; length-field mutations) run through NewClientPipe and judged by a reference parser (distinct = each answer); " +
 			"sync: File.Sync against every advertised list, written bytes inspected; setext: every sequence of one or two SetSFTPExtensions calls with argument lists of length <= 3 over {3 supported names, 1 invalid name}, VERSION bytes of both servers compared with a model and each advertised extension requested from the os-backed server; " +
 			"unknown: every extended name of a finite set (short strings, near-misses of the real names) sent to both servers followed by a STAT",
 		Assumptions: []string{
